@@ -215,7 +215,7 @@ PROPS = {
              trusted=["crypto/sha256 (parameter H)"]),
     "C10": P("exploration", [("history", 12, 400), ("historylong", 0, 12)], ["H.*"], rule=RULE +
              "; a history is a sequence of 40 (long: 400) API calls over pools of 4 elements and 4 scalars with 40% aliased choices, every pool variable observed after every step"),
-    "C11": P("exploration", [("map", 250, 12000), ("chosenu", 40, 2000)], ["PT.sswu", "PT.map", "PT.iso", "H2C.e2gu"], rule=RULE),
+    "C11": P("proof", [("map", 250, 12000), ("chosenu", 40, 2000)], ["PT.sswu", "PT.map", "PT.iso", "H2C.e2gu"], rule=RULE),
     "C12": P("proof", [("field", 4000, 250000)], ["F.*"], rule=RULE),
     "C13": P("proof", [("cmp", 3000, 150000), ("sfcmp", 1000, 50000)], ["SC.*", "S.*"], rule=RULE),
     "C14": P("proof", [("bits", 1500, 100000)], ["SC.bits"], rule=RULE),
